@@ -164,3 +164,37 @@ package benchseries
 //@     invariant forall i int :: 0 <= i < len(tab) ==> len(tab[i]) == len(cs.Benchmarks) && fresh(tab[i])
 //@     invariant forall i int, j int :: 0 <= i < len(tab) && 0 <= j < len(cs.Benchmarks) ==> tab[i][j] != nil
 //@     decreases len(cs.Benchmarks) - idx()
+
+// ---------------------------------------------------------------------------
+// Builder.Add: the nested tables stay well formed (C18)
+
+// Every table has its maps, every trial its tests map, every cell its residue set.
+//@ pure func seriesOK(b *Builder) bool = b.tables != nil && b.hashToOrder != nil && b.Residues != nil &&
+//@     (forall k unitTableKey :: has(b.tables, k) ==> b.tables[k] != nil && b.tables[k].cells != nil && b.tables[k].exps != nil && b.tables[k].benchmarks != nil) &&
+//@     (forall k unitTableKey, ck tableKey :: has(b.tables, k) && has(b.tables[k].cells, ck) ==> b.tables[k].cells[ck] != nil && b.tables[k].cells[ck].tests != nil &&
+//@         (b.tables[k].cells[ck].baseline == nil || b.tables[k].cells[ck].baseline.Residues != nil)) &&
+//@     (forall k unitTableKey, ck tableKey, h benchproc.Key :: has(b.tables, k) && has(b.tables[k].cells, ck) && has(b.tables[k].cells[ck].tests, h) ==>
+//@         b.tables[k].cells[ck].tests[h] != nil && b.tables[k].cells[ck].tests[h].Residues != nil)
+
+//@ func (b *Builder) newTable() (t *table)
+//@   props C18
+//@   opt allocates
+//@   ensures t != nil && fresh(t) && t.cells != nil && t.exps != nil && t.benchmarks != nil && fresh(t.cells) && fresh(t.exps) && fresh(t.benchmarks)
+//@   ensures forall ck tableKey :: !has(t.cells, ck)
+
+//@ func Builder.Add$1() (c *Cell)
+//@   props C18
+//@   opt allocates
+//@   ensures c != nil && fresh(c) && c.Residues != nil && fresh(c.Residues) && len(c.Values) == 0
+
+// Add never writes to a nil map or through a nil pointer, whatever the result and
+// whatever was added before, and leaves the tables well formed.
+//@ func (b *Builder) Add(result *benchfmt.Result)
+//@   props C18
+//@   opt allocates
+//@   requires b != nil && result != nil && seriesOK(b) && b.filter != nil && b.unitBy != nil && b.tableBy != nil && b.pkgBy != nil && b.experimentBy != nil && b.benchBy != nil && b.seriesBy != nil && b.compareBy != nil && b.numHashBy != nil && b.denHashBy != nil && b.residue != nil
+//@   modifies b.tables, b.hashToOrder, b.Residues, heap(table), heap(trial), heap(Cell), heap(float64), heap(map[tableKey]*trial), heap(map[benchproc.Key]struct{}), heap(map[benchproc.Key]*Cell), heap(benchproc.Projection), heap(benchproc.Field), heap(benchproc.keyNode), heap(*benchproc.keyNode), heap(*benchproc.Field), heap(string), heap(map[string]int), heap(map[string]string), heap(map[uint64][]*benchproc.keyNode), heap(benchfmt.Result), heap(benchfmt.Config), heap(benchfmt.Value)
+//@   ensures seriesOK(b)
+//@   loop 1:
+//@     invariant 0 <= idx() <= rlen() && rlen() <= len(result.Values) && seriesOK(b) && deref(b) == old(deref(b))
+//@     invariant unchanged(b.tables, b.hashToOrder, b.Residues, heap(table), heap(trial), heap(Cell), heap(float64), heap(map[tableKey]*trial), heap(map[benchproc.Key]struct{}), heap(map[benchproc.Key]*Cell), heap(benchproc.Projection), heap(benchproc.Field), heap(benchproc.keyNode), heap(*benchproc.keyNode), heap(*benchproc.Field), heap(string), heap(map[string]int), heap(map[string]string), heap(map[uint64][]*benchproc.keyNode), heap(benchfmt.Result), heap(benchfmt.Config), heap(benchfmt.Value))
